@@ -11,6 +11,9 @@ import (
 type SiteCallees map[ssa.CallInstruction][]*ssa.Function
 
 func (p *Prog) SiteIndex(g *callgraph.Graph) SiteCallees {
+	if p.siteIdx != nil && g == p.vtaG {
+		return p.siteIdx
+	}
 	idx := SiteCallees{}
 	for _, n := range g.Nodes {
 		for _, e := range n.Out {
@@ -18,6 +21,23 @@ func (p *Prog) SiteIndex(g *callgraph.Graph) SiteCallees {
 				idx[e.Site] = append(idx[e.Site], e.Callee.Func)
 			}
 		}
+	}
+	if g == p.vtaG {
+		// sites VTA leaves unresolved (function values passed through variadic option lists in generic
+		// code): fall back to CHA's call-by-signature resolution, a superset
+		for _, n := range p.CHA().Nodes {
+			for _, e := range n.Out {
+				if e.Site != nil {
+					if _, ok := idx[e.Site]; !ok {
+						p.chaFallback = append(p.chaFallback, e)
+					}
+				}
+			}
+		}
+		for _, e := range p.chaFallback {
+			idx[e.Site] = append(idx[e.Site], e.Callee.Func)
+		}
+		p.siteIdx = idx
 	}
 	return idx
 }
